@@ -89,7 +89,19 @@ def render(name, s, e, nlook, prefix=None):
         judged_end = len(evs) - 2
     else:
         judged_end = len(evs) - 1
-    out = [t for t in p.feed_generator(E.restamp(evs))]
+    stamped = E.restamp(evs)
+    if prefix == 'odd-timestamps':
+        # stream order is what it is, but the timestamps are not increasing: nested records carry ticks below the START's,
+        # the END carries the START's tick
+        n = len(stamped)
+        stamped = [stamped[0]._replace(timestamp=1000)] + [e._replace(timestamp=10 + i) for i, e in enumerate(stamped[1:-1])] + \
+                  [stamped[-1]._replace(timestamp=1000)]
+        out = [t for t in p.feed_generator(stamped)]
+        mine = [t for t in out if type(t).__name__ != 'VfsLookup']
+        if len(mine) != 1:
+            return None, f'{len(mine)} traces for one START/END pair'
+        return E.stable_str(mine[0]), None
+    out = [t for t in p.feed_generator(stamped)]
     mine = [t for t in out if t.ktraces[0].eventid == evs[len(pre)].eventid and t.ktraces[-1].timestamp == judged_end]
     if len(mine) != 1:
         return None, f'{len(mine)} traces for one START/END pair'
@@ -134,7 +146,7 @@ class C09(Check):
             '(success, failure, other values) with 0 lookups, every point with <=2 non-default words with 2 nested lookups, and every '
             'point with <=1 non-default word preceded by {an earlier START of the same call whose END was lost, a stray END, the same '
             'call still open on another thread (parser built with a populated thread map; also crossing: A.START B.START A.END B.END), another call still open on the same thread} carrying words that never equal an '
-            'enumerated one; and one window per decoder with 5000 stand-alone same-thread records between START and END. '
+            'enumerated one; windows whose nested lookups carry timestamps below the START tick and whose END carries the START tick; and one window per decoder with 5000 stand-alone same-thread records between START and END. '
             'Oracle: every integer-literal token at position k is one of the renderings {u64, i64, u32, i32 decimal; u64, u32 hex} of '
             'START word k in every run; no numeric token beyond position 3; call part identical across END tuples. Distinct by '
             'construction; non-trivial = the rendering is call-style and shows at least one numeric token.')
@@ -171,9 +183,10 @@ class C09(Check):
             for s in deviation_bounded(doms, 1):
                 if name in ('BSC_getsockopt', 'BSC_setsockopt') and s[1] in (1, 0xffff):
                     continue
-                for prefix in ('stale-start', 'stray-end', 'other-thread-open', 'other-thread-crossing', 'other-call-open') + (('long-window',) if s == tuple(d[0] for d in doms) else ()):
-                    bad, call = judge(name, s, 0, prefix)
-                    self._acc(acc, name, s, 0, (bad[0] + ':after-' + prefix, bad[1]) if bad else None, call, prefix)
+                for prefix in ('stale-start', 'stray-end', 'other-thread-open', 'other-thread-crossing', 'other-call-open', 'odd-timestamps') + (('long-window',) if s == tuple(d[0] for d in doms) else ()):
+                    nl = 2 if prefix == 'odd-timestamps' else 0
+                    bad, call = judge(name, s, nl, prefix)
+                    self._acc(acc, name, s, nl, (bad[0] + ':after-' + prefix, bad[1]) if bad else None, call, prefix)
 
     def _acc(self, acc, name, s, nlook, bad, call, prefix=None):
         nontrivial = call is not None and any(numeric_token(t) for t in call[1])
